@@ -48,6 +48,7 @@ pub trait Fx:
     fn c_min(self, o: Self) -> Self;
     fn c_max(self, o: Self) -> Self;
     fn c_clamp(self, lo: Self, hi: Self) -> Self;
+    fn o_clamp(self, lo: Self, hi: Self) -> Self;
     fn abs(self) -> Self;
     fn signum(self) -> Self;
     fn copysign(self, o: Self) -> Self;
@@ -129,6 +130,7 @@ macro_rules! impl_fx {
             #[inline] fn c_min(self, o: Self) -> Self { <$P>::min(self, o) }
             #[inline] fn c_max(self, o: Self) -> Self { <$P>::max(self, o) }
             #[inline] fn c_clamp(self, lo: Self, hi: Self) -> Self { <$P>::clamp(self, lo, hi) }
+            #[inline] fn o_clamp(self, lo: Self, hi: Self) -> Self { Ord::clamp(self, lo, hi) }
             #[inline] fn abs(self) -> Self { <$P>::abs(self) }
             #[inline] fn signum(self) -> Self { <$P>::signum(self) }
             #[inline] fn copysign(self, o: Self) -> Self { <$P>::copysign(self, o) }
